@@ -296,6 +296,41 @@ fn bumpy_cube(r: &mut Rng) -> Vec<P3> {
     pts
 }
 
+/// >= 100 points on the faces of a cube (or of a prism over a regular k-gon) in GENERAL orientation: large nearly coplanar subsets
+/// whose coplanarity is broken by the rounding of the rotation -- the family on which the horizon pinches (`needs_fixing`)
+fn rotated_face_cloud(r: &mut Rng) -> Vec<P3> {
+    let n = 100 + r.below(60) as usize;
+    let mut pts: Vec<P3> = Vec::new();
+    if r.below(3) != 0 {
+        for _ in 0..n { let ax = r.below(3) as usize; let sg = if r.bool() { 1.0 } else { -1.0 };
+            let mut c = [r.uniform(-1.0, 1.0), r.uniform(-1.0, 1.0), r.uniform(-1.0, 1.0)]; c[ax] = sg; pts.push(P3::new(c[0], c[1], c[2])); }
+    } else {
+        let k = 3 + r.below(6) as usize;
+        for _ in 0..n { match r.below(3) {
+            0 | 1 => { let y = if r.bool() { 0.0 } else { 1.0 }; let i = r.below(k as u64) as usize; let (t, u) = (r.uniform(0.0, 1.0), r.uniform(0.0, 1.0));
+                let a0 = 2.0 * std::f64::consts::PI * i as f64 / k as f64; let a1 = 2.0 * std::f64::consts::PI * (i + 1) as f64 / k as f64;
+                let (w0, w1) = (t * u, t * (1.0 - u)); pts.push(P3::new(w0 * a0.cos() + w1 * a1.cos(), y, w0 * a0.sin() + w1 * a1.sin())); }
+            _ => { let i = r.below(k as u64) as usize; let t = r.uniform(0.0, 1.0);
+                let a0 = 2.0 * std::f64::consts::PI * i as f64 / k as f64; let a1 = 2.0 * std::f64::consts::PI * (i + 1) as f64 / k as f64;
+                pts.push(P3::new((1.0 - t) * a0.cos() + t * a1.cos(), r.uniform(0.0, 1.0), (1.0 - t) * a0.sin() + t * a1.sin())); } } }
+    }
+    let iso = d3::gen_iso(r, false, 3.0);
+    for q in pts.iter_mut() { *q = iso * *q; }
+    pts
+}
+
+/// multi-scale cloud: ~100 points in a unit cube plus a small cluster (points on a sphere of radius 1e-3 .. 1e-5) outside it:
+/// genuine hull facets 3 to 5 orders of magnitude smaller than the cloud
+fn multiscale_cloud(r: &mut Rng) -> Vec<P3> {
+    let mut pts: Vec<P3> = (0..(60 + r.below(60))).map(|_| P3::new(r.uniform(0.0, 1.0), r.uniform(0.0, 1.0), r.uniform(0.0, 1.0))).collect();
+    let rad = r.logu(1.0e-5, 1.0e-3);
+    let c = d3::Vector::new(1.0 + r.uniform(0.05, 0.5), r.uniform(0.0, 1.0), r.uniform(0.0, 1.0));
+    for _ in 0..(20 + r.below(30)) { let v = d3::gen_v(r, false, 1.0); let n = v.norm().max(1e-3); pts.push(P3::from(c + v / n * rad)); }
+    shuffle(r, &mut pts);
+    if r.bool() { let iso = d3::gen_iso(r, false, 3.0); for q in pts.iter_mut() { *q = iso * *q; } }
+    pts
+}
+
 pub fn gen(r: &mut Rng, thorough: bool) -> Vec<(String, String)> {
     let n = if thorough { 900 } else { 300 };
     let mut v = Vec::new();
@@ -356,6 +391,17 @@ pub fn gen(r: &mut Rng, thorough: bool) -> Vec<(String, String)> {
                 (0..np3).map(|_| P3::new(r.uniform(-1.0, 1.0), r.uniform(-1.0, 1.0), r.uniform(-1.0, 1.0) * th)).collect() }
         };
         let cloud = if it % 3 == 0 { base } else { let exact = r.bool(); similarity(r, &base, exact) };
+        v.push(("hull3m".into(), fmt3(&cloud)));
+    }
+    // fu4: large coplanar subsets in general orientation (pinched horizons) and multi-scale clouds (small genuine facets):
+    // both through the certificate oracle (`hull3`) and the index-exact model (`hull3m`)
+    let m4 = if thorough { 360 } else { 120 };
+    for it in 0..m4 {
+        // (rotated face clouds go through `hull3m` only: its oracle judges closedness / orientation / Euler / provenance; their
+        //  enclosure is the known finding [coplanar-subset-cloud], whose cap this family would exhaust)
+        let ms = it % 3 == 2;
+        let cloud = if ms { multiscale_cloud(r) } else { rotated_face_cloud(r) };
+        if ms { v.push(("hull3".into(), fmt3(&cloud))); }
         v.push(("hull3m".into(), fmt3(&cloud)));
     }
     v
